@@ -61,6 +61,72 @@ func runC17(c *Ctx) {
 		why := ""
 		var onceCall *Event
 		var mk *Event
+		// A published-flag fast path in front of the Once (double-checked): a field of the receiver that Do reads
+		// with an atomic load and compares with a non-zero constant. The paths that found the flag set are judged by
+		// rule published-flag below; the others are the Once's business as before.
+		var flagField *types.Var
+		var flagConst string
+		isFlagLoad := func(t *Term) *types.Var {
+			if t == nil || t.Op != "call" || !strings.Contains(t.Sym, "atomic.Load") || len(t.Args) != 1 {
+				return nil
+			}
+			if flagField != nil {
+				if isFieldAddr(t.Args[0], flagField, recv) {
+					return flagField
+				}
+				return nil
+			}
+			for _, f := range resFields {
+				if isFieldAddr(t.Args[0], f, recv) {
+					return f
+				}
+			}
+			return nil
+		}
+		for _, p := range ps {
+			for _, cd := range p.Conds {
+				r := cd.Rel()
+				if r.B == nil {
+					continue
+				}
+				for _, side := range [][2]*Term{{r.A, r.B}, {r.B, r.A}} {
+					if f := isFlagLoad(side[0]); f != nil && side[1].Op == "const" && !side[1].IsConst("0") {
+						flagField, flagConst = f, side[1].Sym
+					}
+				}
+			}
+		}
+		var fastPaths []*Path
+		if flagField != nil {
+			var rf []*types.Var
+			for _, f := range resFields {
+				if !sameField(f, flagField) {
+					rf = append(rf, f)
+				}
+			}
+			resFields = rf
+			var rest []*Path
+			for _, p := range ps {
+				set := false
+				for _, cd := range p.Conds {
+					r := cd.Rel()
+					if r.B == nil || r.Op != "==" {
+						continue
+					}
+					for _, side := range [][2]*Term{{r.A, r.B}, {r.B, r.A}} {
+						if f := isFlagLoad(side[0]); f != nil && sameField(f, flagField) && side[1].IsConst(flagConst) {
+							set = true
+						}
+					}
+				}
+				if set && len(callsNamed(p, "sync.(*Once).Do")) == 0 {
+					fastPaths = append(fastPaths, p)
+				} else {
+					rest = append(rest, p)
+				}
+			}
+			ps = rest
+		}
 		for _, p := range ps {
 			calls := callsNamed(p, "sync.(*Once).Do")
 			if len(calls) != 1 {
@@ -118,6 +184,8 @@ func runC17(c *Ctx) {
 				if e.Kind == "call" && e.Name == "dyn" && e.Callee.Key() == userFn.Key() {
 					n++
 					fcall = e
+				} else if e.Kind == "call" && flagField != nil && strings.Contains(e.Name, "atomic.Store") && len(e.Args) == 2 && isFieldAddr(e.Args[0], flagField, recv) {
+					// the publication of the flag: judged by published-flag
 				} else if e.Kind == "call" || e.Kind == "go" || e.Kind == "defer" {
 					okSingle, whyS = false, "the closure does something besides calling the user function: "+e.String()
 				}
@@ -210,6 +278,91 @@ func runC17(c *Ctx) {
 			}
 		}
 		R.Decide(okR, "reads-after-once", fname, "returns", c.pos(fi), "returns the fields, loaded after once.Do", whyR)
+		if flagField != nil {
+			if _, have := R.Rules["published-flag"]; !have {
+				R.Rule("published-flag", "a fast path in front of the Once: the flag is set (atomically, to the constant the fast path tests for) only as the last act of the once.Do closure, after every result field has been stored, and nowhere else; the fast path does nothing but load the flag atomically and then the result fields", 1)
+			}
+			okF, whyF := true, ""
+			// (a) the closure publishes last
+			if okSingle {
+				q := cp.Paths[0]
+				pub, lastStore := -1, -1
+				for i := range q.Events {
+					e := &q.Events[i]
+					if e.Kind == "call" && strings.Contains(e.Name, "atomic.Store") && len(e.Args) == 2 && isFieldAddr(e.Args[0], flagField, recv) {
+						if pub >= 0 || !e.Args[1].IsConst(flagConst) {
+							okF, whyF = false, "the flag is stored twice, or with a value the fast path does not test for"
+						}
+						pub = i
+					}
+					if e.Kind == "store" && rootOf(e.Addr).Op != "alloc" {
+						lastStore = i
+					}
+					if e.Kind == "call" && e.Name == "dyn" {
+						lastStore = i
+					}
+				}
+				if pub < 0 {
+					okF, whyF = false, "the closure never sets the flag the fast path waits for (harmless, but then the fast path is dead code the rules cannot vouch for)"
+				} else if pub < lastStore {
+					okF, whyF = false, "the flag is set before the last result field is stored: a caller on the fast path can return a zero value"
+				}
+			} else {
+				okF, whyF = false, "see single-invocation"
+			}
+			// (b) the fast paths: one atomic load of the flag, nothing else, results loaded afterwards
+			for _, fp := range fastPaths {
+				loadIdx := -1
+				for i := range fp.Events {
+					e := &fp.Events[i]
+					if e.Kind == "call" && isFlagLoad(e.Res) != nil && loadIdx < 0 {
+						loadIdx = i
+					} else if e.Kind == "store" && e.Addr.Op == "alloc" {
+						// a parameter spilled for the closure
+					} else {
+						okF, whyF = false, "the fast path does something besides loading the flag: "+e.String()
+					}
+				}
+				if fp.End != EndReturn || len(fp.Rets) != len(resFields) {
+					okF, whyF = false, "the fast path does not return one value per result field"
+					continue
+				}
+				for k, rf := range resFields {
+					r := fp.Rets[k]
+					ld, _ := r.Val.(ssa.Instruction)
+					after := false
+					for _, a := range fp.Acc {
+						if ld != nil && a.Instr == ld && loadIdx >= 0 && a.NEv > loadIdx {
+							after = true
+						}
+					}
+					if !isFieldLoad(r, rf, recv) || !after {
+						okF, whyF = false, fmt.Sprintf("on the fast path result %d is not the field %s loaded after the flag was seen set", k+1, rf.Name())
+					}
+				}
+			}
+			// (c) nobody else touches the flag
+			for _, g := range c.P.FuncsOfPkg("sync2") {
+				for _, fn := range append([]*ssa.Function{g.SSA}, g.Closures...) {
+					if fn == fi.SSA || fn == mk.SSAFn {
+						continue
+					}
+					for _, b := range fn.Blocks {
+						for _, in := range b.Instrs {
+							if fa, isFA := in.(*ssa.FieldAddr); isFA {
+								if f := fieldVar(fa.X.Type(), fa.Field); f != nil && sameField(f, flagField) {
+									okF, whyF = false, "the flag is also accessed in "+g.Name
+								}
+							}
+						}
+					}
+				}
+			}
+			o := R.Decide(okF, "published-flag", fname, "protocol", c.pos(fi), "flag set last inside the Once closure and nowhere else; fast path = atomic load of the flag, then the fields", whyF)
+			if !okF {
+				o.Breaks = "a caller takes the fast path before the results are there and returns zero values, or f runs more than once"
+			}
+		}
 	}
 	// package-wide: nobody else writes result fields of the Once types
 	extra := []string{}
